@@ -540,7 +540,8 @@ Proof.
       unfold is_unassigned. rewrite Hr. apply andb_false_r.
     + intros r1 r2 Hu H12 Ht. apply andb_true_iff in Ht. destruct Ht as [Ht1 Ht2]. apply andb_true_iff.
       split.
-      * revert Ht1. rnum. destruct (Rleb_spec (r_dzsum r2) (ls_thick L + last)); [|discriminate]. intros _. apply Rleb_true. lra.
+      * revert Ht1. rnum. destruct (Rleb_spec (Rround 2 (r_dzsum r2)) (Rround 2 (ls_thick L + last))); [|discriminate]. intros _. apply Rleb_true.
+        pose proof (Rround_mono 2 _ _ H12). lra.
       * unfold is_unassigned. unfold unassigned in Hu. rewrite Hu. reflexivity.
 Qed.
 
